@@ -536,6 +536,9 @@ pub struct LMsg {
 pub enum Mac {
     Good,
     Bad,
+    /// wrong in a way that defeats folding comparisons: the same mask on two bytes four apart (MI), the whole value
+    /// inverted (SHA256: an even number of words)
+    Fold,
 }
 
 /// Reference encoding. `key` = raw HMAC key bytes used for every Mi / Sha in the message.
@@ -552,6 +555,7 @@ pub fn ref_encode_with(msg: &LMsg, key: Option<&[u8]>, macs: &[Mac]) -> Vec<u8> 
     out.extend_from_slice(&msg.tid);
     for (ix, a) in msg.attrs.iter().enumerate() {
         let bad = macs.get(ix).copied().unwrap_or(Mac::Good) == Mac::Bad;
+        let fold = macs.get(ix).copied().unwrap_or(Mac::Good) == Mac::Fold;
         match a {
             L::Mi => {
                 let body = out.len() - 20 + 24;
@@ -559,6 +563,10 @@ pub fn ref_encode_with(msg: &LMsg, key: Option<&[u8]>, macs: &[Mac]) -> Vec<u8> 
                 let mut mac = crypto::hmac_sha1(key.unwrap_or(b""), &out).to_vec();
                 if bad {
                     mac[7] ^= 0x10;
+                }
+                if fold {
+                    mac[0] ^= 0x01;
+                    mac[4] ^= 0x01;
                 }
                 push_tlv(&mut out, T_MI, &mac);
             }
@@ -568,6 +576,11 @@ pub fn ref_encode_with(msg: &LMsg, key: Option<&[u8]>, macs: &[Mac]) -> Vec<u8> 
                 let mut mac = crypto::hmac_sha256(key.unwrap_or(b""), &out).to_vec();
                 if bad {
                     mac[9] ^= 0x04;
+                }
+                if fold {
+                    for b in mac.iter_mut() {
+                        *b = !*b;
+                    }
                 }
                 push_tlv(&mut out, T_SHA, &mac);
             }
